@@ -195,7 +195,7 @@ def pythagoras_lemma(run):
 
 
 def bounded(run):
-    cnt = 48 if run.tier == "quick" else 600
+    cnt = 48 if run.tier == "quick" else 600 * run.tmul
     jobs = [dict(seed=run.seed * 47 + k, count=cnt // 8) for k in range(8)]
     res, errs = native.pmap("contracts.C12", "nat_sweep", jobs)
     run.worker_errors(errs, len(jobs))
